@@ -67,10 +67,21 @@ fn shrink(text: &str, what: &str) -> String {
             cand.remove(i);
             let t = cand.join("\n") + "\n";
             if let Some(ast) = core_ast(&t) {
+                let tc = std::time::Instant::now();
                 let real = run_real(&t, b"", BUDGET);
-                let ans = ask(&[format!("(ref.run {} {})", FUEL, ast)]);
+                let t_real = tc.elapsed().as_secs_f32();
+                if std::env::var("VERIF_C01_TRACE").is_ok() {
+                    eprintln!("[c01] shrink candidate: real {:.1}s, {} lines", t_real, cand.len());
+                }
+                if real.outcome == "budget" {
+                    // deleting the line made the program loop: not a smaller failing program, and the reference
+                    // interpreter would burn its whole fuel on it
+                    i += 1;
+                    continue;
+                }
+                let ans = ask(&[format!("(ref.run {} {})", FUEL.min(30_000), ast)]);
                 if let Some(rf) = parse_ref_answer(&ans[0]) {
-                    if disagree(&real, &rf) == Some(if what == "outcome" { "outcome" } else { "output" }) {
+                    if rf.0 != "outOfFuel" && disagree(&real, &rf) == Some(if what == "outcome" { "outcome" } else { "output" }) {
                         lines = cand;
                         changed = true;
                         continue;
@@ -128,6 +139,7 @@ fn main() {
     rep.bump_by("generated.grid", n_grid as u64);
     rep.bump_by("generated.outside-core-or-rejected", outside);
     // every program runs once on the real implementation (in parallel threads), results are shared by the comparisons
+    let t0 = std::time::Instant::now();
     let reals: Vec<Observed> = {
         let texts: Vec<String> = cases.iter().map(|c| c.text.clone()).collect();
         let n_threads = 8;
@@ -140,6 +152,7 @@ fn main() {
         handles.into_iter().flat_map(|h| h.join().unwrap()).collect()
     };
     let reqs: Vec<String> = cases.iter().map(|c| format!("(ref.run {} {})", FUEL, c.ast)).collect();
+    eprintln!("[c01] {:.1}s before: let answers = ask(&reqs);", t0.elapsed().as_secs_f32());
     let answers = ask(&reqs);
     // the code-generator model: compile(model) must equal the real instruction list, instruction for instruction
     let mut creqs = vec![];
@@ -152,6 +165,7 @@ fn main() {
             rep.bump("compile-model.not-serialisable");
         }
     }
+    eprintln!("[c01] {:.1}s before: let canswers = ask(&creqs);", t0.elapsed().as_secs_f32());
     let canswers = ask(&creqs);
     // the VM model run on the model-compiled code must behave like the real pipeline too
     let vreqs: Vec<String> = creqs
@@ -179,6 +193,7 @@ fn main() {
             format!("(core.run {} {})", BUDGET, &r["(core.compare ".len().."(core.compare ".len() + src_end])
         })
         .collect();
+    eprintln!("[c01] {:.1}s before: let vanswers = ask(&vreqs);", t0.elapsed().as_secs_f32());
     let vanswers = ask(&vreqs);
     // how many explored programs satisfy the premise of C01_core_correct (decided by the verified checker wfTopB)
     let wreqs: Vec<String> = vreqs
@@ -189,6 +204,7 @@ fn main() {
             format!("(core.wf {}", &rest[sp + 1..])
         })
         .collect();
+    eprintln!("[c01] {:.1}s before: let wanswers = ask(&wreqs);", t0.elapsed().as_secs_f32());
     let wanswers = ask(&wreqs);
     let mut outside_shown = 0;
     for (j, a) in wanswers.iter().enumerate() {
@@ -251,8 +267,12 @@ fn main() {
             });
         }
     }
+    eprintln!("[c01] {:.1}s before: let mut shrunk = 0;", t0.elapsed().as_secs_f32());
     let mut shrunk = 0;
     for (k, c) in cases.iter().enumerate() {
+        if std::env::var("VERIF_C01_TRACE").is_ok() && k % 20 == 0 {
+            eprintln!("[c01] {:.1}s case {}", t0.elapsed().as_secs_f32(), k);
+        }
         let real = reals[k].clone();
         let real2 = if k % 50 == 0 { Some(run_real(&c.text, b"", BUDGET)) } else { None };
         let Some(rf) = parse_ref_answer(&answers[k]) else {
@@ -292,17 +312,20 @@ fn main() {
             }
         }
         if let Some(what) = disagree(&real, &rf) {
-            let text = if shrunk < 6 {
+            // the first few failing programs are shrunk (and re-run); the others are reported as they are, with the
+            // results already at hand: a change that breaks many programs must not run the check into its time limit
+            let (text, real_s, rf_s) = if shrunk < 6 {
                 shrunk += 1;
-                shrink(&c.text, what)
+                let text = shrink(&c.text, what);
+                let real_s = run_real(&text, b"", BUDGET);
+                let rf_s = core_ast(&text)
+                    .map(|a| ask(&[format!("(ref.run {} {})", FUEL, a)])[0].clone())
+                    .and_then(|a| parse_ref_answer(&a))
+                    .unwrap_or(rf.clone());
+                (text, real_s, rf_s)
             } else {
-                c.text.clone()
+                (c.text.clone(), real.clone(), rf.clone())
             };
-            let real_s = run_real(&text, b"", BUDGET);
-            let rf_s = core_ast(&text)
-                .map(|a| ask(&[format!("(ref.run {} {})", FUEL, a)])[0].clone())
-                .and_then(|a| parse_ref_answer(&a))
-                .unwrap_or(rf.clone());
             rep.fail(Failure {
                 kind: Kind::ImplVsProperty,
                 signature: format!("ref:{}", what),
@@ -315,6 +338,9 @@ fn main() {
         if k < 2 || (k == cases.len() - 1) {
             rep.sample(J::s(c.text.clone()));
         }
+    }
+    if std::env::var("VERIF_C01_TRACE").is_ok() {
+        eprintln!("[c01] {:.1}s before finish", t0.elapsed().as_secs_f32());
     }
     rep.finish();
 }
